@@ -45,8 +45,8 @@ LabelFor(Syms, name, ar) ==
 RcgRule(Syms, ln) ==
   LET ps == ln.preds
       lhs == ps[1].args
-      pos(v) == CHOOSE q \in {<<p, k>> : p \in 2..Len(ps), k \in 1..8} :
-                   q[2] <= Len(ps[q[1]].args) /\ ps[q[1]].args[q[2]] = <<v>>
+      pos(v) == CHOOSE q \in UNION {{<<p, k>> : k \in 1..Len(ps[p].args)} : p \in 2..Len(ps)} :
+                   ps[q[1]].args[q[2]] = <<v>>
   IN [func |-> [p \in 1..Len(ps) |-> LabelFor(Syms, ps[p].name, Len(ps[p].args))],
       lin |-> [a \in 1..Len(lhs) |-> [j \in 1..Len(lhs[a]) |-> <<pos(lhs[a][j])[1] - 2, pos(lhs[a][j])[2] - 1>>]]]
 RcgVarsOK(ln) ==
